@@ -1782,7 +1782,7 @@ func checkCachedTimestampsKept(w *World, r *Report) {
 			}
 		})
 	}
-	r.floor("stores of Template.lastModified", n, 2)
+	r.floor("stores of Template.lastModified", n, 1)
 }
 
 // checkOnlyLoadingGivesALoader — R15.13: a template has a loader only if a loader delivered it.
@@ -1852,5 +1852,5 @@ func checkOnlyLoadingGivesALoader(w *World, r *Report) {
 			}
 		})
 	}
-	r.floor("stores of Template.loader", n, 2)
+	r.floor("stores of Template.loader", n, 1)
 }
